@@ -215,22 +215,26 @@ def explained_by_model(j):
     A change to the code that produces a different wrong result is then not attributed."""
     info = j.get("info") or {}
     eng, out = info.get("eng"), info.get("out")
-    if eng in (None, "-", "U"):
+    if eng in (None, "-"):
         return False
-    if out in ("T", "F", "M"):
-        return eng == out
-    if out in ("t", "f"):
+    # "U": the model itself says the case is outside what it transcribes (the text of a float with
+    # more than 15 digits, a numeric text in exponent / inf / nan form): it neither confirms nor
+    # refutes, and the finding's trigger alone decides - the finding is listed by its trigger
+    if eng != "U":
+        if out in ("T", "F", "M"):
+            return eng == out
+        if out not in ("t", "f"):
+            return False
         if (eng == "T") != (out == "t"):
             return False
-        if j.get("rule") == "den":
-            # the observation it disagrees with must be explained as well: the model of the NOT
-            # optimised rule predicts the verdict the denotation was bound to
-            eng0, den0 = info.get("eng0"), info.get("den0")
-            if eng0 in (None, "-", "U") or den0 in (None, "-"):
-                return False
-            return (eng0 == "T") == (den0 == "t")
-        return True
-    return False
+    if out in ("t", "f") and j.get("rule") == "den":
+        # the observation it disagrees with must be explained as well: the model of the NOT
+        # optimised rule predicts the verdict the denotation was bound to
+        eng0, den0 = info.get("eng0"), info.get("den0")
+        if eng0 in (None, "-") or den0 in (None, "-"):
+            return eng == "U" and eng0 == "-"      # nothing of the class is modelled either
+        return eng0 == "U" or (eng0 == "T") == (den0 == "t")
+    return True
 
 
 def attribute(j, prop, known):
